@@ -1546,9 +1546,22 @@ func (r *pxRun) call(st *pxState, fr *pxFrame, x *ssa.Call, k func(*pxState, *px
 			st.emit(Ev{Kind: "write", Name: cc.Method.Name(), In: x, Within: fr.fn, Writer: recv, Segs: termTemplate(args[0]), Data: args[0], Res: res, Depth: fr.depth})
 			return bind(res)
 		}
-		res := newRes("invoke."+cc.Method.Name(), append([]*T{recv}, args...), true)
-		st.emit(Ev{Kind: "invoke", Name: cc.Method.Name(), In: x, Within: fr.fn, Recv: recv, Args: args, Res: res, Depth: fr.depth})
-		return bind(res)
+		// a method called through an interface on a value whose concrete module type is known on this
+		// path (a receiver handed to a helper as a small interface): the method of that type, inlined
+		// like a static call — unless it is one the rules want to see as an opaque event
+		devirt := (*ssa.Function)(nil)
+		if recv.Typ != nil && !types.IsInterface(recv.Typ) && fr.depth < r.cfg.MaxDepth {
+			if fn := r.c.Prog.LookupMethod(recv.Typ, cc.Method.Pkg(), cc.Method.Name()); fn != nil && fn.Blocks != nil && r.c.inModule(fn) && (r.cfg.Opaque == nil || !r.cfg.Opaque(fn)) {
+				devirt = fn
+			}
+		}
+		if devirt == nil {
+			res := newRes("invoke."+cc.Method.Name(), append([]*T{recv}, args...), true)
+			st.emit(Ev{Kind: "invoke", Name: cc.Method.Name(), In: x, Within: fr.fn, Recv: recv, Args: args, Res: res, Depth: fr.depth})
+			return bind(res)
+		}
+		args = append([]*T{recv}, args...)
+		return r.inlineCall(st, fr, x, devirt, nil, args, resTyp, k)
 	}
 	sc := cc.StaticCallee()
 	var callee *ssa.Function
@@ -1631,6 +1644,21 @@ func (r *pxRun) call(st *pxState, fr *pxFrame, x *ssa.Call, k func(*pxState, *px
 		res := newRes(name, args, true)
 		st.emit(Ev{Kind: "call", Name: name, Fn: callee, In: x, Within: fr.fn, Args: args, Res: res, Depth: fr.depth})
 		return bind(res)
+	}
+	return r.inlineCall(st, fr, x, callee, cbind, args, resTyp, k)
+}
+
+// inlineCall evaluates callee in a new frame; every return of it resumes the continuation k.
+func (r *pxRun) inlineCall(st *pxState, fr *pxFrame, x *ssa.Call, callee *ssa.Function, cbind []*T, args []*T, resTyp types.Type, k func(*pxState, *pxFrame, *T)) bool {
+	for f := fr; f != nil; f = f.parent {
+		if f.fn == callee {
+			// recursion: leave the call opaque
+			*st.inst++
+			res := &T{Op: "call", Aux: fname(callee), A: args, Typ: resTyp, Site: x, Inst: *st.inst}
+			st.emit(Ev{Kind: "call", Name: fname(callee), Fn: callee, In: x, Within: fr.fn, Args: args, Res: res, Depth: fr.depth})
+			fr.env[x] = res
+			return false
+		}
 	}
 	r.frameID++
 	nf := &pxFrame{id: r.frameID, fn: callee, env: map[ssa.Value]*T{}, args: args, bind: cbind, parent: fr, depth: fr.depth + 1}
